@@ -293,3 +293,11 @@ Definition write_arrays (k : skind) (g : wgraph) (md : smeta) (validate overwrit
     | Err e => fail e
     end
   else ret tt.
+
+(* geff.write (_graph_libs/_api_wrapper.py): the wrapper's own overwrite guard, then the backend writer, which reaches write_arrays
+   (through write_dicts) with its default overwrite=False -- two guards in a row.  The model starts at the arrays the backend hands
+   over (the dictionaries -> arrays step is Dicts.v / C03). *)
+Definition api_write (k : skind) (g : wgraph) (md : smeta) (validate overwrite : bool) : M unit :=
+  do exists_ <- check_for_geff k;
+  (if exists_ then (if overwrite then delete_geff k else fail FileExistsError) else ret tt) ;;
+  write_arrays k g md validate false.
